@@ -95,6 +95,24 @@ func genAllocConc(c *ctx) {
 				held = append(held, n)
 			}
 		}
+		// many rounds of k callers naming the SAME block (or none) at once: the blocks handed out in
+		// a round must be pairwise different; everything is freed again after each round
+		if len(held) < nblocks && c.count < c.n {
+			hint := "- 0 0"
+			if !v6 {
+				hint = "- 32 32"
+			}
+			if c.rng.Intn(3) != 0 && len(held) > 0 {
+				// a block that is free right now: free one we hold and name it
+				v := held[len(held)-1]
+				ones, bits := v.Mask.Size()
+				if s.exec(c, fmt.Sprintf("free %s %d %d", hx(v.IP), ones, bits)) == "ok" {
+					held = held[:len(held)-1]
+					hint = fmt.Sprintf("%s %d %d", hx(v.IP), ones, bits)
+				}
+			}
+			s.exec(c, fmt.Sprintf("arace %s %d %d", hint, 2+c.rng.Intn(7), 400))
+		}
 		for round := 0; round < 4 && c.count < c.n; round++ {
 			if c.rng.Intn(2) == 0 || len(held) == 0 {
 				// k parallel allocations racing for what is left
@@ -324,6 +342,8 @@ func genDispatch4Conc(c *ctx) {
 			fs[i] = func() string { res[i] = dg4Result(ops[i]); return "done" }
 		}
 		together(fs)
+		// dispatch is stateless: any order explains correct outcomes; one wrong outcome is explained by none
+		c.batch(len(ops))
 		for i := range ops {
 			c.emit(strings.Join(ops[i], " "), res[i])
 		}
